@@ -33,7 +33,7 @@ def lg(x):
 # topology generation (a JSON-able description) and assembly from real components
 # ---------------------------------------------------------------------------------------------
 def gen_leaf(r, cdw, depth):
-    k = r.choice(["mux", "mux", "bridge", "evmon", "gpio"] + (["dec"] if depth < 2 else []))
+    k = r.choice(["mux", "mux", "bridge", "evmon", "gpio"] + (["dec", "dec"] if depth < 2 else []))
     name = r.choice([None, "n"])
     if k == "mux":
         aw = r.randint(1, 4)
@@ -54,7 +54,9 @@ def gen_leaf(r, cdw, depth):
     if k == "gpio":
         return {"kind": "gpio", "pins": r.choice([1, 3, 4, 5, 9]), "aw": r.randint(3, 5), "name": name}
     kids = [gen_leaf(r, cdw, depth + 1) for _ in range(r.randint(1, 3))]
-    return {"kind": "dec", "kids": kids, "al": r.choice([0, 0, 1]), "name": name, "extra": r.randint(0, 1)}
+    # decoder alignments larger than a child's address width pad the child's window: the padding must
+    # stay unassigned in the map AND dead in the hardware
+    return {"kind": "dec", "kids": kids, "al": r.choice([0, 0, 1, 2, 3]), "name": name, "extra": r.randint(0, 1)}
 
 
 def gen_soc(r):
@@ -68,7 +70,7 @@ def gen_soc(r):
                          "writable": int(r.random() < 0.8), "name": r.choice([None, "ram"])})
         else:
             tops.append({"kind": "csr", "root": gen_leaf(r, gran, 0), "name": r.choice([None, "csr"])})
-    return {"dw": dw, "gran": gran, "g": g, "tops": tops, "al": r.choice([0, 0, 1]), "extra": r.randint(0, 1),
+    return {"dw": dw, "gran": gran, "g": g, "tops": tops, "al": r.choice([0, 0, 1, 2]), "extra": r.randint(0, 1),
             "seed": r.getrandbits(30)}
 
 
@@ -329,6 +331,7 @@ MC = """SPECIFICATION Spec
 CONSTANTS MaxItems = 2
   Export = FALSE
   RootAls = {als}
+  Rich = TRUE
 VIEW View
 CONSTRAINT Bound
 INVARIANT PatternAgreesWithMap
